@@ -17,9 +17,9 @@ var (
 	flagSeed  = flag.Int64("seed", 1, "PRNG seed (VERIF_SEED)")
 	flagTier  = flag.String("tier", "quick", "quick|thorough")
 	flagTmp   = flag.String("tmp", "", "scratch directory (outside /repo and /verif)")
-	flagModel = flag.String("model", "/verif/lean/.lake/build/bin/boltmodel", "Lean model driver")
+	flagModel = flag.String("model", filepath.Join(baseDir(), "lean/.lake/build/bin/boltmodel"), "Lean model driver")
 	flagOut   = flag.String("out", "", "write the engine report (JSON) here")
-	flagRepl  = flag.String("replaydir", "/verif/replays", "directory for replay files")
+	flagRepl  = flag.String("replaydir", filepath.Join(baseDir(), "replays"), "directory for replay files")
 	flagProp  = flag.String("prop", "", "property id the run is for")
 	flagFile  = flag.String("replay", "", "replay file to re-execute")
 )
@@ -62,6 +62,29 @@ func (r *Report) sample(v any) {
 	if len(r.Samples) < 5 {
 		r.Samples = append(r.Samples, v)
 	}
+}
+
+// baseDir: the verification tree this binary belongs to (<base>/bin/vh), so that a snapshot of
+// /verif run elsewhere uses its own driver, CLI binary, golden corpus and replay directory.
+func baseDir() string {
+	if exe, err := os.Executable(); err == nil {
+		// the binary lives in <base>/bin or in a private per-run copy <base>/bin/run.<pid>
+		d := filepath.Dir(exe)
+		for i := 0; i < 3; i++ {
+			d = filepath.Dir(d)
+			if _, err := os.Stat(filepath.Join(d, "harness")); err == nil {
+				return d
+			}
+		}
+	}
+	return "/verif"
+}
+
+func cliPath() string {
+	if p := os.Getenv("VERIF_CLI"); p != "" {
+		return p
+	}
+	return filepath.Join(baseDir(), "bin/bbolt")
 }
 
 var replaySeq int
